@@ -172,7 +172,17 @@ def gen_options(L, meta):
             raise TranslateError('validate_options: unrecognised stanza for %r' % key)
         store_inside = False
         fill = []
+        must_str = []
         for r in rest:
+            # `if not isinstance(options['k'], str): raise SQLParseError(...)`
+            if isinstance(r, ast.If) and not r.orelse and isinstance(r.test, ast.UnaryOp) and isinstance(r.test.op, ast.Not) \
+                    and isinstance(r.test.operand, ast.Call) and getattr(r.test.operand.func, 'id', None) == 'isinstance' \
+                    and len(r.test.operand.args) == 2 and getattr(r.test.operand.args[1], 'id', None) == 'str' \
+                    and isinstance(r.test.operand.args[0], ast.Subscript) and getattr(r.test.operand.args[0].value, 'id', None) == 'options' \
+                    and isinstance(r.test.operand.args[0].slice, ast.Constant) and len(r.body) == 1 and isinstance(r.body[0], ast.Raise) \
+                    and getattr(getattr(r.body[0].exc, 'func', None), 'id', None) == 'SQLParseError':
+                must_str.append(r.test.operand.args[0].slice.value)
+                continue
             s = _store(r)
             if s is None:
                 raise TranslateError('%s: unrecognised statement in int stanza' % key)
@@ -187,10 +197,11 @@ def gen_options(L, meta):
                 and isinstance(_store(body[i])[1], ast.Name) and _store(body[i])[1].id == var:
             store_after = True
             i += 1
-        rules.append('.intOpt %s %s %s [%s] (%d) %s %s [%s] %s' % (
+        rules.append('.intOpt %s %s %s [%s] (%d) %s %s [%s] %s [%s]' % (
             lean_str(key), pyval(dflt), 'true' if none_skips else 'false', ', '.join(caught), bound,
             'true' if strict else 'false', 'true' if store_inside else 'false',
-            ', '.join('(%s, %s)' % (lean_str(k), pyval(v)) for k, v in fill), 'true' if store_after else 'false'))
+            ', '.join('(%s, %s)' % (lean_str(k), pyval(v)) for k, v in fill), 'true' if store_after else 'false',
+            ', '.join(lean_str(k) for k in must_str)))
         info.append({'key': key, 'kind': 'int', 'default': dflt, 'none_skips': none_skips, 'caught': caught,
                      'bound': bound, 'strict': strict, 'store_inside': store_inside, 'fill': fill,
                      'store_after': store_after})
